@@ -388,6 +388,8 @@ func runCOSRaw(env *Env, sc *COS, dir string) {
 	os.Setenv("FAKESSH_SEED", fmt.Sprint(sc.DataSeed))
 	os.Setenv("FAKESSH_FROM", strings.Join(from, ","))
 	os.Setenv("FAKESSH_TO", fmt.Sprint(toTotal))
+	const endMarker = "\x01\x02END-OF-C16S-WRITES\x03\x04"
+	os.Setenv("FAKESSH_END", endMarker)
 	li, _ := logging.NewInstance()
 	topts := []util.Option{options.WithSystemTransportOpenBin(fakessh()), options.WithTransportReadSize(sc.ReadSize)}
 	if sc.Netconf {
@@ -466,7 +468,8 @@ func runCOSRaw(env *Env, sc *COS, dir string) {
 				return
 			}
 		}
-		wdone <- nil
+		// the end marker, in a write of its own: the peer reports what it got in front of it
+		wdone <- tr.Write([]byte(endMarker))
 	}()
 	for len(got) < total && time.Now().Before(deadline) {
 		b, err := tr.Read()
